@@ -27,7 +27,7 @@ func NewVClock(slotDuration time.Duration, slotsPerEpoch uint64) *VClock {
 	return &VClock{Genesis: time.Now().Add(1000 * 24 * time.Hour).Truncate(time.Second), SlotDuration: slotDuration, SlotsPerEpoch: slotsPerEpoch}
 }
 
-func (c *VClock) SetSlot(s phase0.Slot) { c.mu.Lock(); c.slot = s; c.mu.Unlock() }
+func (c *VClock) SetSlot(s phase0.Slot)  { c.mu.Lock(); c.slot = s; c.mu.Unlock() }
 func (c *VClock) GenesisTime() time.Time { return c.Genesis }
 func (c *VClock) StartOfSlot(slot phase0.Slot) time.Time {
 	return c.Genesis.Add(time.Duration(slot) * c.SlotDuration)
@@ -273,7 +273,9 @@ type CapEvents struct {
 	Handlers map[string][]eth2client.EventHandlerFunc
 }
 
-func NewCapEvents() *CapEvents { return &CapEvents{Handlers: map[string][]eth2client.EventHandlerFunc{}} }
+func NewCapEvents() *CapEvents {
+	return &CapEvents{Handlers: map[string][]eth2client.EventHandlerFunc{}}
+}
 
 func (e *CapEvents) Events(_ context.Context, topics []string, handler eth2client.EventHandlerFunc) error {
 	e.mu.Lock()
